@@ -47,6 +47,13 @@ def stepName : StepType → String
   | .none => "0" | .forward => "1" | .forward_reverse => "2" | .write_adj_deps => "3" | .write_ics => "4"
   | .read_adj_deps => "5" | .read_ics => "6"
 
+/-- `Forward:0:3` / `Write_memory:2` -/
+def opOf (t : String) : PyOp :=
+  match t.splitOn ":" with
+  | [k, a, b] => ⟨k, .pair (a.toInt?.getD 0) (b.toInt?.getD 0)⟩
+  | [k, a] => ⟨k, .single (a.toInt?.getD 0)⟩
+  | _ => ⟨t, .single 0⟩
+
 def answer (w : List String) : String :=
   let i (k : Nat) : Int := (w.getD k "0").toInt?.getD 0
   let fuel : Nat := 1000000
@@ -113,6 +120,12 @@ def answer (w : List String) : String :=
     | "twoLevel" => ob (twoLevel_uses st (stOf (w.getD 3 "DISK")))
     | "revolve" => ob (revolve_uses st (i 3) (if w.getD 4 "-" = "-" then none else some (i 4)))
     | _ => "bad-request"
+  | some "revolveIter" =>
+    showEvs (revolve_iterator fuel 0 0 (some (i 1)) (((w.getD 2 "").splitOn ",").filter (· ≠ "") |>.map opOf) false)
+  | some "lastReads" =>
+    match last_reads (((w.getD 1 "").splitOn ",").filter (· ≠ "") |>.map opOf) with
+    | .ok l => String.intercalate " " (l.map toString)
+    | .error e => "raise:" ++ errStr e
   | some "mixed" => showEvs (mixed_iterator fuel 0 0 (some (i 1)) (i 2) (stOf (w.getD 3 "DISK")) false)
   | some "twoLevel" =>
     showEvs (twoLevel_iterator fuel 0 0 none (i 1) (i 2) (stOf (w.getD 3 "DISK")) (w.getD 4 "maximum") (i 5) (i 6))
